@@ -35,16 +35,26 @@
 (* as "mi.k"; the string a statement assigns/exports is its own id, so a   *)
 (* logged value tells which statement produced it.                         *)
 (*                                                                         *)
+(* Generation and running can be separated (Mode): "gen" exports every     *)
+(* complete graph that links together with its Features (coverage labels   *)
+(* defined below: why the module holding a statement is demand-loaded x    *)
+(* statement kind x target class), "run" takes graphs from a file and runs *)
+(* the loader on them.  The replay selects graphs label by label first.    *)
+(*                                                                         *)
 (* Not generated (excluded by the property or not deterministic natively): *)
 (* reads of uninitialised bindings (TDZ), more than one import() per run   *)
 (* (completion order of independent jobs), require() of an ES module that  *)
 (* is in a cycle with / already linked by an import (Node throws           *)
 (* ERR_REQUIRE_CYCLE_MODULE, a host restriction), a CommonJS module that   *)
 (* threw being loaded again (the require cache forgets it, the ESM module  *)
-(* map does not), CommonJS modules whose                                   *)
-(* statically detected names differ from the keys of module.exports when   *)
-(* a namespace of them is observed, CommonJS exports changed after the     *)
-(* snapshot.  Such runs end with excl # "" and are not exported.           *)
+(* map does not), CommonJS modules whose statically detected names differ  *)
+(* from the keys of module.exports when a namespace of them (or of an ES   *)
+(* module that re-exports them with export-star) is observed, CommonJS     *)
+(* exports changed after the snapshot.  Such runs end with excl # "" and   *)
+(* are not exported.  "export * from" a CommonJS or JSON module and        *)
+(* "export * as ns from" ARE generated (Node decides the names of a        *)
+(* CommonJS module with its lexer; the alphabet only has shapes the lexer  *)
+(* reads: exports.x = ..., module.exports = {x: ...}).                     *)
 (***************************************************************************)
 EXTENDS Integers, Sequences, FiniteSets, TLC, Json
 
@@ -57,15 +67,21 @@ CONSTANTS N,           \* maximal number of modules
           Names,       \* names of exported variables, subset of {"x","y","z"}
           MinLen,      \* minimal number of statements of a module (1; larger to bias -simulate towards big graphs)
           Guided,      \* BOOLEAN: generation satisfies pending imports first (for -simulate: fewer dead ends)
-          Emit         \* BOOLEAN: print a CASE record for every finished run
+          Emit,        \* BOOLEAN: print a CASE record for every finished run
+          Leaves,      \* preset leaf modules a statement may mention: subset of {"Lesm","Lcjs","Ldyn"}
+          NGen,        \* maximal number of generated (esm/cjs, non-preset) modules
+          Tot,         \* maximal total number of statements of the generated modules
+          Mode         \* "full": generate and run | "gen": generate only (GRAPH records) | "run": run the graphs of c02_graphs.ndjson
 
-AllEsmOps == {"probe", "let", "set", "fn", "call", "rd", "rns", "imp", "def", "rex", "star", "dyn", "throw"}
+AllEsmOps == {"probe", "let", "set", "fn", "call", "rd", "rns", "imp", "def", "rex", "star", "starns", "dyn", "throw"}
 AllCjsOps == {"probe", "xset", "mexp", "esm", "req", "dyn", "throw"}
 
 ASSUME /\ N \in 1..5 /\ K \in 1..6
        /\ EntryKinds \subseteq {"esm", "cjs"} /\ Kinds \subseteq {"esm", "cjs", "json"}
        /\ EsmOps \subseteq AllEsmOps /\ CjsOps \subseteq AllCjsOps
        /\ Names \subseteq {"x", "y", "z"}
+       /\ Leaves \subseteq {"Lesm", "Lcjs", "Ldyn"} /\ NGen \in 1..5 /\ Tot \in 1..30
+       /\ Mode \in {"full", "gen", "run"}
 
 VARIABLES phase,   \* "gen" | "run" | "done"
           kinds,   \* sequence: kind of every module mentioned so far
@@ -76,8 +92,8 @@ VARIABLES phase,   \* "gen" | "run" | "done"
 vars == <<phase, kinds, bodies, cur, rs>>
 
 Mods == 1..N
-AllNames == Names \cup {"default", "f"}
-KeyOrder == <<"default", "f", "x", "y", "z">>     \* sorted, as the runners print keys
+AllNames == Names \cup {"default", "f", "ns"}
+KeyOrder == <<"default", "f", "ns", "x", "y", "z">>     \* sorted, as the runners print keys
 MName == <<"m1", "m2", "m3", "m4", "m5">>
 Dig == <<"1", "2", "3", "4", "5", "6">>
 Id(m, k) == MName[m] \o "." \o Dig[k]
@@ -92,11 +108,31 @@ St(op, t, x) == [op |-> op, t |-> t, x |-> x]
 (* The graph (state-level: kinds, bodies)                                  *)
 (***************************************************************************)
 NM == Len(kinds)
-Kind(m) == kinds[m]
-Body(m) == IF m <= Len(bodies) THEN bodies[m] ELSE IF m = Len(bodies) + 1 THEN cur ELSE <<>>
+
+\* Preset leaf modules.  A statement may mention, instead of a module whose
+\* body is generated, a leaf with a fixed body; this buys depth (a chain
+\* entry -> lazily loaded module -> re-exporting module -> CommonJS file has
+\* four modules) without multiplying the enumerated family:
+\*   Lesm  an ES module with static exports:      probe; export let x
+\*   Lcjs  a CommonJS module the lexer can read:  probe; exports.x = ...
+\*   Ldyn  an ES module whose export set is only known at run time:
+\*           probe; export * from <the Lcjs leaf that follows it>
+\* `kinds` holds the preset name; Kind(m) is the module's real kind.
+PresetKinds == {"Lesm", "Lcjs", "Ldyn"}
+IsPreset(m) == kinds[m] \in PresetKinds
+RealKind(k) == CASE k \in {"Lesm", "Ldyn"} -> "esm" [] k = "Lcjs" -> "cjs" [] OTHER -> k
+Kind(m) == RealKind(kinds[m])
+PresetBody(m) ==
+  CASE kinds[m] = "Lesm" -> <<St("probe", 0, ""), St("let", 0, "x")>>
+    [] kinds[m] = "Lcjs" -> <<St("probe", 0, ""), St("xset", 0, "x")>>
+    [] kinds[m] = "Ldyn" -> <<St("probe", 0, ""), St("star", m + 1, "")>>
+    [] OTHER -> <<>>
+Body(m) == IF m <= Len(bodies) THEN bodies[m]
+           ELSE IF m <= Len(kinds) /\ IsPreset(m) THEN PresetBody(m)
+           ELSE IF m = Len(bodies) + 1 THEN cur ELSE <<>>
 Idx(m) == DOMAIN Body(m)
 
-StaticOps == {"call", "rd", "rns", "imp", "rex", "star"}    \* statements that request a module statically
+StaticOps == {"call", "rd", "rns", "imp", "rex", "star", "starns"}    \* statements that request a module statically
 
 \* the requested modules of an ES module, in source order, without repetition
 RECURSIVE ReqFrom(_, _, _)
@@ -111,6 +147,9 @@ HasLocal(m, x) ==
   \E i \in Idx(m) : \/ Body(m)[i].op = "let" /\ Body(m)[i].x = x
                     \/ Body(m)[i].op = "def" /\ x = "default"
                     \/ Body(m)[i].op = "fn" /\ x = "f"
+\* export * as ns from t: the exported name "ns" denotes the namespace object of t
+NsTarget(m) == LET i == CHOOSE i \in Idx(m) : Body(m)[i].op = "starns" IN Body(m)[i].t
+HasNsExport(m) == \E i \in Idx(m) : Body(m)[i].op = "starns"
 FnVar(m) == LET i == CHOOSE i \in Idx(m) : Body(m)[i].op = "fn" IN Body(m)[i].x
 
 \* names Node's cjs-module-lexer detects in a CommonJS body of this alphabet
@@ -131,6 +170,7 @@ Res(m, x, seen) ==
            seen2 == seen \cup {<<m, x>>}
            rex == {i \in DOMAIN B : B[i].op = "rex" /\ B[i].x = x}
        IN IF HasLocal(m, x) THEN [k |-> "esm", m |-> m, x |-> x]
+          ELSE IF x = "ns" /\ HasNsExport(m) THEN [k |-> "ns", m |-> NsTarget(m), x |-> x]
           ELSE IF rex # {} THEN Res(B[CHOOSE i \in rex : TRUE].t, x, seen2)
           ELSE IF x = "default" THEN NoneR
           ELSE LET stars == {B[i].t : i \in {j \in DOMAIN B : B[j].op = "star"}}
@@ -139,6 +179,28 @@ Res(m, x, seen) ==
                   ELSE IF Cardinality(found) = 1 THEN CHOOSE r \in found : TRUE
                   ELSE AmbR
 Resolve(m, x) == Res(m, x, {})
+
+\* The names of m that are known without running anything: resolution that
+\* does not pass through "export * from <CommonJS module>" (whose names exist
+\* natively by the lexer's reading of the file, in a bundle only at run time).
+\* An output format with static exports (esm) can only carry these.
+RECURSIVE ResStatic(_, _, _)
+ResStatic(m, x, seen) ==
+  IF <<m, x>> \in seen THEN NoneR
+  ELSE IF Kind(m) # "esm" THEN Res(m, x, {})
+  ELSE LET B == Body(m)
+           seen2 == seen \cup {<<m, x>>}
+           rex == {i \in DOMAIN B : B[i].op = "rex" /\ B[i].x = x}
+       IN IF HasLocal(m, x) THEN [k |-> "esm", m |-> m, x |-> x]
+          ELSE IF x = "ns" /\ HasNsExport(m) THEN [k |-> "ns", m |-> NsTarget(m), x |-> x]
+          ELSE IF rex # {} THEN ResStatic(B[CHOOSE i \in rex : TRUE].t, x, seen2)
+          ELSE IF x = "default" THEN NoneR
+          ELSE LET stars == {B[i].t : i \in {j \in DOMAIN B : B[j].op = "star" /\ Kind(B[j].t) # "cjs"}}
+                   found == {ResStatic(t, x, seen2) : t \in stars} \ {NoneR}
+               IN IF found = {} THEN NoneR
+                  ELSE IF Cardinality(found) = 1 THEN CHOOSE r \in found : TRUE
+                  ELSE AmbR
+StaticKeys(m) == {x \in AllNames : ResStatic(m, x, {}).k \notin {"none", "amb"}}
 Resolvable(m, x) == Resolve(m, x).k \notin {"none", "amb"}
 NsKeys(m) == {x \in AllNames : Resolvable(m, x)}
 
@@ -162,13 +224,13 @@ ExportsName(b, x) ==
   \/ HasOp(b, "let", x) \/ HasOp(b, "rex", x)
   \/ (x = "default" /\ HasOpAny(b, "def"))
   \/ (x = "f" /\ HasOpAny(b, "fn"))
+  \/ (x = "ns" /\ HasOpAny(b, "starns"))
 
 \* which target kinds a statement can have
 Compatible(op, x, tk) ==
   CASE op = "call" -> tk = "esm"
     [] op = "rd"   -> tk # "json" \/ x = "default"
-    [] op = "rex"  -> tk # "json"
-    [] op = "star" -> tk = "esm"
+    [] op = "rex"  -> tk # "json" \/ x = "default"
     [] OTHER -> TRUE
 
 \* local (incremental) well-formedness of the statement s appended to body b of kind k
@@ -181,22 +243,25 @@ LocalOK(k, b, s) ==
             [] s.op = "fn"  -> HasOp(b, "let", s.x) /\ ~ExportsName(b, "f")
             [] s.op = "def" -> ~ExportsName(b, "default")
             [] s.op = "rex" -> ~ExportsName(b, s.x)
+            [] s.op = "starns" -> ~ExportsName(b, "ns")
             [] OTHER -> TRUE
      ELSE TRUE
 
 NoArg == {"probe", "def", "throw", "esm"}
 NameOnly == {"let", "set", "fn", "xset", "mexp"}
-TargetOnly == {"call", "rns", "imp", "star", "dyn", "req"}
+TargetOnly == {"call", "rns", "imp", "star", "starns", "dyn", "req"}
 TargetName == {"rd", "rex"}
 
 Shapes(ops) ==
-  LET T == 1..Min(N, NM + 1) IN
+  LET T == 1..Min(N, NM + 1)
+      \* "ns" can only be imported where some module may export it
+      INames == IF "starns" \in EsmOps THEN AllNames ELSE AllNames \ {"ns"} IN
        {St(op, 0, "") : op \in ops \cap NoArg}
   \cup {St(op, 0, x) : op \in ops \cap {"let", "set", "fn", "mexp"}, x \in Names}
   \cup {St(op, 0, x) : op \in ops \cap {"xset"}, x \in Names \cup {"default"}}
   \cup {St(op, t, "") : op \in ops \cap TargetOnly, t \in T}
-  \cup {St("rd", t, x) : t \in (IF "rd" \in ops THEN T ELSE {}), x \in AllNames \ {"f"}}
-  \cup {St("rex", t, x) : t \in (IF "rex" \in ops THEN T ELSE {}), x \in AllNames}
+  \cup {St("rd", t, x) : t \in (IF "rd" \in ops THEN T ELSE {}), x \in INames \ {"f"}}
+  \cup {St("rex", t, x) : t \in (IF "rex" \in ops THEN T ELSE {}), x \in INames}
 
 GM == Len(bodies) + 1      \* the module being generated
 
@@ -210,8 +275,12 @@ Links ==
           [] s.op = "rex"  -> Resolvable(m, s.x)
           [] OTHER -> TRUE
 
+\* data files and preset leaves have no generated body
 RECURSIVE SkipData(_)
-SkipData(bs) == IF Len(bs) < NM /\ kinds[Len(bs) + 1] = "json" THEN SkipData(Append(bs, <<>>)) ELSE bs
+SkipData(bs) ==
+  IF Len(bs) < NM /\ (kinds[Len(bs) + 1] = "json" \/ IsPreset(Len(bs) + 1))
+  THEN SkipData(Append(bs, PresetBody(Len(bs) + 1)))
+  ELSE bs
 
 InitRun == [
   st      |-> [m \in Mods |-> "new"],      \* new | evaluating | pending | evaluated | errored
@@ -236,12 +305,19 @@ InitRun == [
   rdU     |-> FALSE,                       \* a read met an uninitialised binding
   excl    |-> ""]                          \* reason why this run is not exported
 
+\* Mode "run": the graphs to load are given (a selection of the GRAPH records
+\* of a Mode "gen" run, one JSON object {kinds, bodies} per line)
+Given == IF Mode = "run" THEN ndJsonDeserialize("c02_graphs.ndjson") ELSE <<>>
+
 Init ==
-  /\ phase = "gen"
-  /\ kinds \in {<<k>> : k \in EntryKinds}
-  /\ bodies = <<>>
   /\ cur = <<>>
   /\ rs = InitRun
+  /\ IF Mode = "run"
+     THEN /\ phase = "run"
+          /\ \E i \in DOMAIN Given : kinds = Given[i].kinds /\ bodies = Given[i].bodies
+     ELSE /\ phase = "gen"
+          /\ kinds \in {<<k>> : k \in EntryKinds}
+          /\ bodies = <<>>
 
 \* Partial resolution while the graph is being built: modules above nc are not
 \* finished yet, what they will export is unknown.  Used only to cut off
@@ -249,7 +325,7 @@ Init ==
 UnkR == [k |-> "unk", m |-> 0, x |-> ""]
 RECURSIVE PRes(_, _, _, _)
 PRes(m, x, seen, nc) ==
-  IF m > nc THEN UnkR
+  IF m > nc /\ ~IsPreset(m) THEN UnkR
   ELSE IF <<m, x>> \in seen THEN NoneR
   ELSE IF Kind(m) = "cjs"
        THEN IF x = "default" \/ x \in LexNames(m) THEN [k |-> "cjs", m |-> m, x |-> x] ELSE NoneR
@@ -259,6 +335,7 @@ PRes(m, x, seen, nc) ==
            seen2 == seen \cup {<<m, x>>}
            rex == {i \in DOMAIN B : B[i].op = "rex" /\ B[i].x = x}
        IN IF HasLocal(m, x) THEN [k |-> "esm", m |-> m, x |-> x]
+          ELSE IF x = "ns" /\ HasNsExport(m) THEN [k |-> "ns", m |-> NsTarget(m), x |-> x]
           ELSE IF rex # {} THEN PRes(B[CHOOSE i \in rex : TRUE].t, x, seen2, nc)
           ELSE IF x = "default" THEN NoneR
           ELSE LET stars == {B[i].t : i \in {j \in DOMAIN B : B[j].op = "star"}}
@@ -290,13 +367,28 @@ Provides(s, need) ==
   \/ s.op = "let" /\ "f" \in need /\ ~HasOpAny(cur, "let")
   \/ s.op = "star" /\ need \cap Names # {}
 
+\* number of modules whose body is generated
+GenCount == Cardinality({m \in 1..NM : kinds[m] \in {"esm", "cjs"}})
+
+\* statements generated so far, and generated modules that still need a body
+RECURSIVE SumLen(_, _)
+SumLen(bs, i) == IF i > Len(bs) THEN 0 ELSE (IF kinds[i] \in {"esm", "cjs"} THEN Len(bs[i]) ELSE 0) + SumLen(bs, i + 1)
+Used == SumLen(bodies, 1) + Len(cur)
+Waiting == Cardinality({m \in (GM + 1)..NM : kinds[m] \in {"esm", "cjs"}})
+
 GenAdd ==
   /\ phase = "gen" /\ Len(cur) < K
-  /\ \E s \in Shapes(IF Kind(GM) = "esm" THEN EsmOps ELSE CjsOps) :
+  /\ Used + 1 + Waiting <= Tot
+  /\ LET roomForModule == GenCount < NGen /\ Used + 2 + Waiting <= Tot IN
+     \E s \in Shapes(IF Kind(GM) = "esm" THEN EsmOps ELSE CjsOps) :
        /\ LocalOK(Kind(GM), cur, s)
        /\ (Guided /\ Needed # {}) => Provides(s, Needed)
        /\ IF s.t = NM + 1
-          THEN \E k \in Kinds : Compatible(s.op, s.x, k) /\ kinds' = Append(kinds, k)
+          THEN \E k \in Kinds \cup Leaves :
+                 /\ Compatible(s.op, s.x, RealKind(k))
+                 /\ (k \in {"esm", "cjs"}) => roomForModule
+                 /\ (k = "Ldyn") => NM + 2 <= N
+                 /\ kinds' = IF k = "Ldyn" THEN kinds \o <<"Ldyn", "Lcjs">> ELSE Append(kinds, k)
           ELSE /\ (s.t # 0 => Compatible(s.op, s.x, Kind(s.t)))
                /\ (s.t # 0 /\ s.t <= Len(bodies)) => MayLink(s, Len(bodies))
                /\ kinds' = kinds
@@ -327,47 +419,84 @@ RenderKeys(f, i, acc, first) ==
        THEN RenderKeys(f, i + 1, acc \o (IF first THEN "" ELSE ",") \o key \o ":" \o f[key], FALSE)
        ELSE RenderKeys(f, i + 1, acc, first)
 RenderObj(f) == "{" \o RenderKeys(f, 1, "", TRUE) \o "}"
-RenderCx(c) == IF c.atom # "" THEN c.atom ELSE RenderObj(c.obj)
-JsonStr(m) == "{x:" \o MName[m] \o "}"
+\* the runners cut objects nested deeper than 3 levels ("{...}"); namespace
+\* objects can be nested without bound (export * as ns from a cycle)
+Cut == "{...}"
+RenderCxD(c, d) == IF c.atom # "" THEN c.atom ELSE IF d > 3 THEN Cut ELSE RenderObj(c.obj)
+RenderCx(c) == RenderCxD(c, 0)
+JsonStrD(m, d) == IF d > 3 THEN Cut ELSE "{x:" \o MName[m] \o "}"
+JsonStr(m) == JsonStrD(m, 0)
 
 CxKeys(c) == IF c.atom # "" THEN {} ELSE {x \in AllNames : c.obj[x] # Absent}
 CxGet(c, x) == IF c.atom # "" \/ c.obj[x] = Absent THEN Undef ELSE c.obj[x]
 
-\* value of a resolved binding in loader state r
-BindVal(r, b) ==
+\* the modules reachable from m over export-star edges (m included)
+RECURSIVE StarReach(_, _)
+StarReach(todo, done) ==
+  IF todo = {} THEN done
+  ELSE LET m == CHOOSE m \in todo : TRUE
+           next == IF Kind(m) = "esm"
+                   THEN {Body(m)[i].t : i \in {j \in Idx(m) : Body(m)[j].op = "star"}}
+                   ELSE {}
+       IN StarReach((todo \cup next) \ (done \cup {m}), done \cup {m})
+\* the CommonJS modules whose (run-time) keys an ES module re-exports with export *
+StarCjs(m) == {c \in StarReach({m}, {}) : Kind(c) = "cjs"}
+\* an ES module whose export set is only known at run time
+DynFallback(m) == Kind(m) = "esm" /\ StarCjs(m) # {}
+
+RECURSIVE RenderNsD(_, _, _), NsExclD(_, _, _)
+
+\* value of a resolved binding in loader state r, rendered at nesting depth d
+BindValD(r, b, d) ==
   CASE b.k = "esm"  -> IF b.x = "f" THEN "fn" ELSE r.env[b.m][b.x]
-    [] b.k = "cjs"  -> IF b.x = "default" THEN RenderCx(r.cx[b.m]) ELSE CxGet(r.snap[b.m], b.x)
-    [] b.k = "json" -> JsonStr(b.m)
+    [] b.k = "cjs"  -> IF b.x = "default" THEN RenderCxD(r.cx[b.m], d) ELSE CxGet(r.snap[b.m], b.x)
+    [] b.k = "json" -> JsonStrD(b.m, d)
+    [] b.k = "ns"   -> RenderNsD(r, b.m, d)
     [] OTHER -> Undef
+BindVal(r, b) == BindValD(r, b, 0)
 
 \* a read through b is outside the generated family
-BindExcl(r, b) ==
+BindExclD(r, b, d) ==
   CASE b.k = "esm" -> IF b.x # "f" /\ r.env[b.m][b.x] = Uninit THEN "tdz" ELSE ""
     [] b.k = "cjs" -> IF b.x = "default" THEN ""
                       ELSE IF ~r.snapped[b.m] THEN "cjs-unsnapped"
                       ELSE IF CxGet(r.snap[b.m], b.x) # CxGet(r.cx[b.m], b.x) THEN "cjs-live"
                       ELSE ""
+    [] b.k = "ns" -> NsExclD(r, b.m, d)
     [] OTHER -> ""
+BindExcl(r, b) == BindExclD(r, b, 0)
 
-NsFun(r, m) ==
-  CASE Kind(m) = "esm"  -> [x \in AllNames |-> IF Resolvable(m, x) THEN BindVal(r, Resolve(m, x)) ELSE Absent]
-    [] Kind(m) = "cjs"  -> [x \in AllNames |-> IF x = "default" THEN RenderCx(r.cx[m])
+NsFunD(r, m, d) ==
+  CASE Kind(m) = "esm"  -> [x \in AllNames |-> IF Resolvable(m, x) THEN BindValD(r, Resolve(m, x), d + 1) ELSE Absent]
+    [] Kind(m) = "cjs"  -> [x \in AllNames |-> IF x = "default" THEN RenderCxD(r.cx[m], d + 1)
                                                 ELSE IF x \in LexNames(m) THEN CxGet(r.snap[m], x)
                                                 ELSE Absent]
-    [] OTHER -> [x \in AllNames |-> IF x = "default" THEN JsonStr(m) ELSE Absent]
-RenderNs(r, m) == RenderObj(NsFun(r, m))
+    [] OTHER -> [x \in AllNames |-> IF x = "default" THEN JsonStrD(m, d + 1) ELSE Absent]
+RenderNsD(r, m, d) == IF d > 3 THEN Cut ELSE RenderObj(NsFunD(r, m, d))
+RenderNs(r, m) == RenderNsD(r, m, 0)
 
-NsExcl(r, m) ==
+\* the names Node's lexer reads off a CommonJS module are the keys it really has
+LexerExact(r, c) == LexNames(c) \ {"default"} = CxKeys(r.snap[c]) \ {"default"}
+
+NsExclD(r, m, d) ==
+  IF d > 3 THEN "" ELSE
   CASE Kind(m) = "esm" ->
-         IF \E x \in NsKeys(m) : BindExcl(r, Resolve(m, x)) = "tdz" THEN "tdz"
-         ELSE IF \E x \in NsKeys(m) : BindExcl(r, Resolve(m, x)) # "" THEN "cjs-live"
+         LET ex == {BindExclD(r, Resolve(m, x), d + 1) : x \in NsKeys(m)} IN
+         IF "tdz" \in ex THEN "tdz"
+         ELSE IF \E c \in StarCjs(m) : ~r.snapped[c] THEN "cjs-unsnapped"
+         \* export * from a CommonJS module: natively the lexer's names, in a
+         \* bundle the keys the object has at run time (a property exclusion
+         \* when they differ)
+         ELSE IF \E c \in StarCjs(m) : ~LexerExact(r, c) THEN "cjs-lexer"
+         ELSE IF ex \ {""} # {} THEN CHOOSE e \in ex \ {""} : TRUE
          ELSE ""
     [] Kind(m) = "cjs" ->
          IF ~r.snapped[m] THEN "cjs-unsnapped"
-         ELSE IF LexNames(m) \ {"default"} # CxKeys(r.snap[m]) \ {"default"} THEN "cjs-lexer"
+         ELSE IF ~LexerExact(r, m) THEN "cjs-lexer"
          ELSE IF \E x \in LexNames(m) : CxGet(r.snap[m], x) # CxGet(r.cx[m], x) THEN "cjs-live"
          ELSE ""
     [] OTHER -> ""
+NsExcl(r, m) == NsExclD(r, m, 0)
 
 \* what require(m) returns, rendered
 RenderReq(r, m) ==
@@ -433,7 +562,7 @@ ExecEsm(r, f, s) ==
     [] s.op = "let"   -> Advance([r EXCEPT !.env[f.m][s.x] = id])
     [] s.op = "set"   -> Advance([r EXCEPT !.env[f.m][s.x] = id])
     [] s.op = "def"   -> Advance([r EXCEPT !.env[f.m]["default"] = id])
-    [] s.op \in {"fn", "imp", "rex", "star"} -> Advance(r)
+    [] s.op \in {"fn", "imp", "rex", "star", "starns"} -> Advance(r)
     [] s.op = "call"  ->
          LET b == Resolve(s.t, "f")
              v == FnVar(b.m) IN
@@ -516,6 +645,7 @@ GuardFinish  == phase = "run" /\ (rs.excl # "" \/ rs.job = "fin")
 \* the graph is complete: reject it if it does not link, otherwise load the entry point
 Start ==
   /\ GuardStart
+  /\ Mode # "gen"
   /\ Links
   /\ rs' = Push([rs EXCEPT !.job = "main", !.linked = Closure(1)], 1)
   /\ UNCHANGED <<phase, kinds, bodies, cur>>
@@ -568,18 +698,80 @@ DynEnd ==
 EntrySnap == Snapshot(rs, 1)
 ExpNs  == IF rs.threw THEN "-" ELSE RenderNs(EntrySnap, 1)      \* what import(entry) resolves to
 ExpReq == IF rs.threw THEN "-" ELSE RenderReq(rs, 1)            \* what require(entry) returns
+\* the entry's namespace restricted to its statically known names
+ExpNsStatic ==
+  IF rs.threw \/ Kind(1) # "esm" THEN "-"
+  ELSE RenderObj([x \in AllNames |-> IF x \in StaticKeys(1) /\ Resolvable(1, x)
+                                       THEN BindValD(EntrySnap, Resolve(1, x), 1) ELSE Absent])
 
-CaseRec == [spec |-> "ModuleSem", kinds |-> kinds, bodies |-> bodies, trace |-> rs.trace,
-            threw |-> rs.threw, ns |-> ExpNs, req |-> ExpReq]
+(***************************************************************************)
+(* Features of a graph (coverage labels).  esbuild evaluates a module      *)
+(* lazily (wraps it in an initialiser it calls on demand) when the module  *)
+(* can be demanded at run time; the loader semantics above says when that  *)
+(* is: a module that is the target of an import() or of a require(), every *)
+(* module such a module requests statically (its dependencies have to wait *)
+(* with it), in particular the modules in a cycle with it; CommonJS        *)
+(* modules always are.  A label names, for one statement that mentions a   *)
+(* module: why the module containing the statement is demand-loaded, the   *)
+(* statement kind, and the class of its target.  The replay picks graphs   *)
+(* label by label before it samples, so a thin class is never sampled away.*)
+(***************************************************************************)
+DynT == {t \in UNION {{Body(m)[i].t : i \in {j \in Idx(m) : Body(m)[j].op = "dyn"}} : m \in 1..NM} : Kind(t) = "esm"}
+ReqT == {t \in UNION {{Body(m)[i].t : i \in {j \in Idx(m) : Body(m)[j].op = "req"}} : m \in 1..NM} : Kind(t) = "esm"}
+LazyDirect == DynT \cup ReqT
+LazySet == Clo(LazyDirect, {})           \* closed under static ESM -> ESM requests
+WrapOf(m) ==
+  CASE Kind(m) = "cjs" -> {"cjs"}
+    [] Kind(m) = "json" -> {"json"}
+    [] OTHER -> (IF m \in DynT THEN {"dyn"} ELSE {})
+                \cup (IF m \in ReqT THEN {"req"} ELSE {})
+                \cup (IF m \in LazySet \ LazyDirect
+                      THEN (IF \E w \in LazyDirect : w \in Closure(m) THEN {"cyc"} ELSE {"dep"})
+                      ELSE {})
+                \cup (IF m \notin LazySet THEN {"hoisted"} ELSE {})
+ClassOf(t) ==
+  CASE Kind(t) = "json" -> "json"
+    [] Kind(t) = "cjs" -> "cjs"
+    [] OTHER -> (IF DynFallback(t) THEN "esmdyn" ELSE "esm") \o (IF t \in LazySet THEN "+lazy" ELSE "")
+\* a name that is ambiguous between export-star sources only because of what
+\* a CommonJS module exports (natively: dropped from the namespace)
+AmbStarCjs ==
+  \E m \in 1..NM : Kind(m) = "esm" /\ \E x \in AllNames : Res(m, x, {}) = AmbR /\ ResStatic(m, x, {}) # AmbR
+\* an ES module with a run-time export set that is in a static import cycle:
+\* natively its names exist when the cycle is linked, in a bundle they are
+\* copied when its body runs (another member of the cycle may look earlier)
+CycDyn ==
+  \E m \in 1..NM : DynFallback(m) /\ \E j \in DOMAIN Requested(m) : m \in Closure(Requested(m)[j])
+Features ==
+  UNION {UNION {{w \o ":" \o Body(m)[i].op \o ">" \o ClassOf(Body(m)[i].t) : w \in WrapOf(m)} :
+                i \in {j \in Idx(m) : Body(m)[j].t # 0}} : m \in 1..NM}
+  \cup (IF AmbStarCjs THEN {"amb:star>cjs"} ELSE {})
+  \cup (IF CycDyn THEN {"cyc:esmdyn"} ELSE {})
+
+RealKinds == [m \in 1..NM |-> Kind(m)]
+CaseRec == [spec |-> "ModuleSem", kinds |-> RealKinds, bodies |-> bodies, trace |-> rs.trace,
+            threw |-> rs.threw, ns |-> ExpNs, req |-> ExpReq, nsStatic |-> ExpNsStatic, feat |-> Features]
+\* Mode "gen": the graph alone (raw kinds, so that it can be given back in Mode "run")
+GraphRec == [spec |-> "ModuleSem.graph", kinds |-> kinds, bodies |-> bodies, feat |-> Features]
 
 Finish ==
   /\ GuardFinish
   /\ phase' = "done"
-  /\ (Emit /\ rs.excl = "" /\ (rs.threw \/ NsExcl(EntrySnap, 1) \in {"", "cjs-lexer"})) => PrintT(<<"CASE", ToJson(CaseRec)>>)
+  /\ (Emit /\ rs.excl = "" /\ (rs.threw \/ NsExcl(EntrySnap, 1) = "" \/ (Kind(1) = "cjs" /\ NsExcl(EntrySnap, 1) = "cjs-lexer")))
+        => PrintT(<<"CASE", ToJson(CaseRec)>>)
   /\ (Emit /\ rs.excl # "") => PrintT(<<"EXCL", rs.excl>>)
   /\ UNCHANGED <<kinds, bodies, cur, rs>>
 
-Next == GenAdd \/ GenClose \/ Start \/ EvalDep \/ RunStmt \/ Pop \/ MainEnd \/ DynEnd \/ Finish
+\* Mode "gen": a complete graph that links is exported without being run
+GenEmit ==
+  /\ GuardStart
+  /\ Mode = "gen"
+  /\ Links
+  /\ phase' = "done"
+  /\ Emit => PrintT(<<"CASE", ToJson(GraphRec)>>)
+  /\ UNCHANGED <<kinds, bodies, cur, rs>>
+
+Next == GenAdd \/ GenClose \/ Start \/ GenEmit \/ EvalDep \/ RunStmt \/ Pop \/ MainEnd \/ DynEnd \/ Finish
 
 Spec == Init /\ [][Next]_vars
 
@@ -638,5 +830,28 @@ Progress == (phase = "run" /\ rs.job # "start") =>
 \* one import() per exported run; its callback runs after the synchronous part
 OneDyn == rs.dyn.state = "running" => rs.job \in {"dyn", "fin"}
 
-TraceBound == Len(rs.trace) <= N * K + 3
+TraceBound == Len(rs.trace) <= N * (K + 2) + 3
+
+\* Demand-loaded modules.  (1) A module that the entry point reaches only
+\* through import() does not run in the synchronous part of the load.
+RECURSIVE SyncReach(_, _)
+SyncReach(todo, done) ==
+  IF todo = {} THEN done
+  ELSE LET m == CHOOSE m \in todo : TRUE
+           next == {Body(m)[i].t : i \in {j \in Idx(m) : Body(m)[j].op # "dyn" /\ Body(m)[j].t # 0}}
+       IN SyncReach((todo \cup next) \ (done \cup {m}), done \cup {m})
+LazyNotEarly ==
+  (phase = "run" /\ rs.job = "main") =>
+     {m \in 1..NM : rs.runs[m] # 0 \/ rs.st[m] # "new"} \subseteq SyncReach({1}, {})
+
+\* (2) Wherever a module is loaded from, once its body has started every
+\* module it requests statically (import, export-from, export *, export * as
+\* ns) has been entered before: it is evaluated, being evaluated (a cycle), or
+\* loading it threw.  In particular the body of a re-exporting module never
+\* runs without the source of its re-export having been started first.
+RequestedEntered ==
+  \A m \in 1..NM : (Kind(m) = "esm" /\ rs.runs[m] > 0) =>
+     \A j \in DOMAIN Requested(m) :
+        LET t == Requested(m)[j] IN
+          Kind(t) = "json" \/ rs.st[t] # "new" \/ rs.unwound[t] > 0
 =============================================================================
